@@ -4,9 +4,14 @@
   Model: `QExPy/Model/Units.lean` (`mul`, `div`, `sqrtU`, `negU`, `addSub`, `filterZero`,
   `powConst`, `operate`, `unitOf`) mirroring qexpy/utils/units.py and `propagate_units`; the
   dispatch table `UNIT_OPERATIONS` is generated (`Gen.unitOps`).  Specification: `dimT`,
-  dimensional analysis on exponent functions.  No compound-unit definitions (`defs = []`).
+  dimensional analysis on exponent functions.  No compound-unit definitions (`defs = []`) — also
+  at the end of a define / clear history (`C08_after_history`).  Leaves may be given as the unit
+  STRINGS the user types (`Model/UnitWritten.lean`, `C08_leaf_written`, `C08_written`).
 -/
 import QExPy.Lemmas.Units
+import QExPy.Lemmas.ParseSpec
+import QExPy.Lemmas.DefReqs
+import QExPy.Model.UnitWritten
 
 namespace QExPy
 open U
@@ -277,5 +282,57 @@ example : Dom (.bin "add" (.bin "mul" (.leaf [("kg".toList, 1)]) (.leaf [("m".to
     (Or.inr (Or.inr ⟨C08_dispatch.1, Or.inr (Or.inr fun s => ?_)⟩))
   simp only [dimT, hm, dimU, List.map, sumRat, dimSym]
   grind
+
+/-! ### leaves as the user writes them, and sessions with a past -/
+
+/-- **C08 (all unit assignments: any written form).** A quantity created with a unit STRING that
+    the reference grammar reads as `u` — `kg*m^2/s^2`, `kg/s^2*m^2`, `m*m*kg/s/s`,
+    `kg*m^3/(s^2*m)`, `kg(m^2)/s^2`: chains of `*` and `/` read left to right, a symbol
+    written more than once, brackets, implicit multiplication — carries exactly the unit `u`,
+    under any definitions; `u` is key-unique, so the leaf is in the domain of `C08_dim`.
+    (`refParse` is the conventional reading: C12_parse_eq_ref, C12_sound.) -/
+theorem C08_leaf_written (s : List Char) (u : Units) (h : refParse s = some u) (defs : Defs) :
+    (WTree.leafS s).read = some (.leaf u) ∧ unitOfW defs (.leafS s) = some (u, false, 0) ∧
+      WF u ∧ Dom (.leaf u) := by
+  have hp : parse s = some u := by rw [parse_eq_refParse]; exact h
+  obtain ⟨_, _, _, _, hw, _⟩ := parse_sound s u hp
+  refine ⟨by simp [WTree.read, hp], by simp [unitOfW, WTree.read, hp, unitOf], hw, Dom.leaf u hw⟩
+
+/-- **C08 (two spellings of one unit are not a mismatch).** Operands whose unit strings are read
+    as dimensionally equal units — whatever the spelling of either — add without warning. -/
+theorem C08_written_forms_agree (s1 s2 : List Char) (u v : Units) (h1 : refParse s1 = some u)
+    (h2 : refParse s2 = some v) (nu : u ≠ []) (nv : v ≠ []) (he : Equiv u v) :
+    addSub u v = (u, false) :=
+  C08_order_insensitive u v (C08_leaf_written s1 u h1 []).2.2.1 (C08_leaf_written s2 v h2 []).2.2.1
+    nu nv he
+
+/-- **C08 (main, formulas as typed).** When every unit string of a typed formula `w` is accepted
+    (`w.read = some t`) and the formula it denotes is in the domain, the unit of the result is
+    the dimensional analysis of `t`, no warning, no exception. -/
+theorem C08_written (w : WTree) (t : UTree) (hr : w.read = some t) (hd : Dom t) :
+    ∃ u, unitOfW [] w = some (u, isConstT t, 0) ∧ WF u ∧ ∀ s, expOf u s = dimT [] t s := by
+  simp only [unitOfW, hr]
+  exact C08_dim t hd
+
+/-- **C08 (a session with a past).** The domain of C08 is "no compound-unit definitions active"
+    at the time the formula is evaluated.  Whatever was defined earlier in the session: once
+    `clear_unit_definitions()` has been called and only rejected definitions followed, every
+    formula of the domain gets exactly the unit it gets in a fresh session (`C08_dim`): no name
+    defined in the past is shown, no symbol is expanded. -/
+theorem C08_after_history (rs rs' : List DefReq) (hrej : ∀ r ∈ rs', r.accepted = false)
+    (t : UTree) (h : Dom t) :
+    ∃ u, unitOf (runReqs [] (rs ++ DefReq.clear :: rs')) t = some (u, isConstT t, 0) ∧ WF u ∧
+      ∀ s, expOf u s = dimT [] t s := by
+  rw [runReqs_clear_then_rejected [] rs rs' hrej]
+  exact C08_dim t h
+
+/-- non-vacuity: `kg/s^2*m^2` is read by the reference grammar (left to right) as kg·m²·s⁻² -/
+example : refParse "kg/s^2*m^2".toList =
+    some [("kg".toList, 1), ("s".toList, -2), ("m".toList, 2)] := by decide +kernel
+
+/-- non-vacuity: `m/s/s` is an acceleration and `m*m` an area -/
+example : refParse "m/s/s".toList = some [("m".toList, 1), ("s".toList, -2)] ∧
+    refParse "m*m".toList = some [("m".toList, 2)] := by
+  constructor <;> decide +kernel
 
 end QExPy
